@@ -647,6 +647,9 @@ class StmtsMixin:
         is_for = lo is not None
         tag = f"loop{ordn}"
         body = node.body
+        if self.unit.is_silent and not any(n == "logs-no-warning" for n, _ in spec.invariants):
+            from .contract import LoopSpec
+            spec = LoopSpec(spec.invariants + [("logs-no-warning", "_warnings == 0")], spec.decreases, spec.ghost_locals)
         # ---- entry
         if is_for:
             st.set_local("_it", V.vint(lo))
